@@ -39,13 +39,14 @@ theorem wf_step {c : Cfg} {s s' : State} {t : Nat} {lb : Lbl} (h : StepCase c s 
 
 theorem Inv1.init (c : Cfg) (hc : c.WF) : Inv1 c (State.init c) := by
   have hb : ∀ t, c.bal = some t → t ∉ c.workers := hc.2
-  refine ⟨?_, ?_, ?_, ?_, ?_, ?_, ?_, ?_, ?_, ?_, ?_, ?_, ?_⟩ <;> simp only [State.init]
+  refine ⟨?_, ?_, ?_, ?_, ?_, ?_, ?_, ?_, ?_, ?_, ?_, ?_, ?_, ?_⟩ <;> simp only [State.init]
   · intro t; by_cases h1 : t ∈ c.workers <;> by_cases h2 : c.bal = some t <;> simp [h1, h2, PcWF]
   · intro t; by_cases h1 : t ∈ c.workers <;> by_cases h2 : c.bal = some t <;> simp [h1, h2, Pc.role]
   · intro t; by_cases h1 : t ∈ c.workers <;> by_cases h2 : c.bal = some t <;> simp [h1, h2, Pc.role]
   · intro t; by_cases h1 : t ∈ c.workers <;> by_cases h2 : c.bal = some t <;> simp [h1, h2, Pc.role]
   · intro t ht; simp [ht, Pc.role]
   · intro b hb'; simp [hb b hb', hb', Pc.role]
+  · simp
   · simp
   · intro t; by_cases h1 : t ∈ c.workers <;> by_cases h2 : c.bal = some t <;> simp [h1, h2]
   · simp
@@ -54,157 +55,69 @@ theorem Inv1.init (c : Cfg) (hc : c.WF) : Inv1 c (State.init c) := by
   · intro w; by_cases h1 : w ∈ c.workers <;> by_cases h2 : c.bal = some w <;> simp [h1, h2, Pc.role]
   · simp
 
-theorem Inv1.step {c : Cfg} {s s' : State} {t : Nat} {lb : Lbl} (I : Inv1 c s)
-    (h : StepCase c s t lb s') : Inv1 c s' := by
-  have hfr := pc_frame h
-  have hrole := role_step h
-  have hidle : s.pc t = .idle → t ∉ c.workers ∧ c.bal ≠ some t := by
-    intro hi
-    constructor
-    · intro hw; rcases I.r4 t hw with h1 | h1 <;> simp [hi, Pc.role] at h1
-    · intro hb; rcases I.r5 t hb with h1 | h1 <;> simp [hi, Pc.role] at h1
-  refine ⟨?_, ?_, ?_, ?_, ?_, ?_, ?_, ?_, ?_, ?_, ?_, ?_, ?_⟩
-  · -- wf
-    intro u
-    by_cases hu : u = t
-    · subst hu; exact wf_step h (I.wf _)
-    · rw [hfr u hu]; exact I.wf u
-  · -- r1
-    intro u hr
-    by_cases hu : u = t
-    · subst hu
-      rcases hrole with h1 | h1 | h1
-      · exact I.r1 _ (h1 ▸ hr)
-      · rw [h1] at hr; simp [Pc.role] at hr
-      · exact absurd hr h1.2.2.2.1
-    · rw [hfr u hu] at hr; exact I.r1 u hr
-  · -- r2
-    intro u hr
-    by_cases hu : u = t
-    · subst hu
-      rcases hrole with h1 | h1 | h1
-      · exact I.r2 _ (h1 ▸ hr)
-      · rw [h1] at hr; simp [Pc.role] at hr
-      · exact absurd hr h1.2.2.2.2
-    · rw [hfr u hu] at hr; exact I.r2 u hr
-  · -- r3
-    intro u hr
-    by_cases hu : u = t
-    · subst hu
-      have h3 := I.r3 u
-      have h6 := I.r6
-      cases h <;> simp_all [Pc.role]
-    · rw [hfr u hu] at hr
-      have h3 := I.r3 u hr
-      have h6 := I.r6
-      cases h <;> simp_all
-  · -- r4
-    intro u hw
-    by_cases hu : u = t
-    · subst hu
-      rcases I.r4 _ hw with h4 | h4
-      · rcases hrole with h1 | h1 | h1
-        · exact Or.inl (h1 ▸ h4)
-        · exact Or.inr h1
-        · exact absurd h4 h1.2.1
-      · cases h <;> simp_all
-    · rw [hfr u hu]; exact I.r4 u hw
-  · -- r5
-    intro u hb
-    by_cases hu : u = t
-    · subst hu
-      rcases I.r5 _ hb with h4 | h4
-      · rcases hrole with h1 | h1 | h1
-        · exact Or.inl (h1 ▸ h4)
-        · exact Or.inr h1
-        · exact absurd h4 h1.2.2.1
-      · cases h <;> simp_all
-    · rw [hfr u hu]; exact I.r5 u hb
-  · -- r6
-    have h6 := I.r6
-    cases h <;> simp_all
-  · -- run1
-    intro u hr
-    have hrun := I.run1
-    have h3 := I.r3
-    clear hrole
-    by_cases hu : u = t
-    · subst hu
-      have := hrun u
-      clear hfr I
-      cases h <;> simp_all [afterLdRunS]
-      all_goals (first | grind [upd, Pc.role, Pc.inTask, claimPc, dispatchPc, PopCtx.onEmpty, PopCtx.role, PopCtx.queue, afterLdRunS, afterLdRunB, afterJoinW, afterSubmit, afterSize, slotAvailable] | (trace_state; sorry))
-    · rw [hfr u hu] at hr
-      have h1 := hrun u hr
-      clear hfr I
-      cases h <;> simp_all
-      all_goals (first | grind [upd, Pc.role, Pc.inTask, claimPc, dispatchPc, PopCtx.onEmpty, PopCtx.role, PopCtx.queue, afterLdRunS, afterLdRunB, afterJoinW, afterSubmit, afterSize, slotAvailable] | (trace_state; sorry))
-  · -- o1
-    intro k w how
-    have o1 := I.o1
-    have o3 := I.o3
-    clear hrole hfr I
-    cases h <;> simp_all
-    all_goals (first | grind [upd, Pc.role, Pc.inTask, claimPc, dispatchPc, PopCtx.onEmpty, PopCtx.role, PopCtx.queue, afterLdRunS, afterLdRunB, afterJoinW, afterSubmit, afterSize, slotAvailable] | (trace_state; sorry))
-  · -- o2
-    intro w k hown hr
-    have o2 := I.o2
-    have o1 := I.o1
-    have o3 := I.o3
-    clear hrole
-    by_cases hu : w = t
-    · subst hu
-      clear hfr I
-      cases h <;> simp_all [Pc.role]
-      all_goals (first | grind [upd, Pc.role, Pc.inTask, claimPc, dispatchPc, PopCtx.onEmpty, PopCtx.role, PopCtx.queue, afterLdRunS, afterLdRunB, afterJoinW, afterSubmit, afterSize, slotAvailable] | (trace_state; sorry))
-    · rw [hfr w hu] at hr
-      have := o2 w
-      clear hfr I
-      cases h <;> simp_all
-      all_goals (first | grind [upd, Pc.role, Pc.inTask, claimPc, dispatchPc, PopCtx.onEmpty, PopCtx.role, PopCtx.queue, afterLdRunS, afterLdRunB, afterJoinW, afterSubmit, afterSize, slotAvailable] | (trace_state; sorry))
-  · -- o3
-    intro w hw
-    have o3 := I.o3
-    clear hrole
-    by_cases hu : w = t
-    · subst hu
-      clear hfr I
-      cases h <;> simp_all [afterLdRunS, afterLdRunB]
-      all_goals (first | grind [upd, Pc.role, Pc.inTask, claimPc, dispatchPc, PopCtx.onEmpty, PopCtx.role, PopCtx.queue, afterLdRunS, afterLdRunB, afterJoinW, afterSubmit, afterSize, slotAvailable] | (trace_state; sorry))
-    · rw [hfr w hu] at hw
-      have := o3 w hw
-      clear hfr I
-      cases h <;> simp_all
-      all_goals (first | grind [upd, Pc.role, Pc.inTask, claimPc, dispatchPc, PopCtx.onEmpty, PopCtx.role, PopCtx.queue, afterLdRunS, afterLdRunB, afterJoinW, afterSubmit, afterSize, slotAvailable] | (trace_state; sorry))
-  · -- o4
-    intro w hr hne
-    have o4 := I.o4
-    clear hrole
-    by_cases hu : w = t
-    · subst hu
-      have := o4 w
-      clear hfr I
-      cases h <;> simp_all [Pc.role]
-      all_goals (first | grind [upd, Pc.role, Pc.inTask, claimPc, dispatchPc, PopCtx.onEmpty, PopCtx.role, PopCtx.queue, afterLdRunS, afterLdRunB, afterJoinW, afterSubmit, afterSize, slotAvailable] | (trace_state; sorry))
-    · rw [hfr w hu] at hr hne
-      have := o4 w hr hne
-      clear hfr I
-      cases h <;> simp_all
-      all_goals (first | grind [upd, Pc.role, Pc.inTask, claimPc, dispatchPc, PopCtx.onEmpty, PopCtx.role, PopCtx.queue, afterLdRunS, afterLdRunB, afterJoinW, afterSubmit, afterSize, slotAvailable] | (trace_state; sorry))
-  · -- sc
-    intro u hin
-    have hsc := I.sc
-    clear hrole
-    by_cases hu : u = t
-    · subst hu
-      have := hsc u
-      clear hfr I
-      cases h <;> simp_all [Pc.inTask]
-      all_goals (first | grind [upd, Pc.role, Pc.inTask, claimPc, dispatchPc, PopCtx.onEmpty, PopCtx.role, PopCtx.queue, afterLdRunS, afterLdRunB, afterJoinW, afterSubmit, afterSize, slotAvailable] | (trace_state; sorry))
-    · rw [hfr u hu] at hin
-      have := hsc u hin
-      clear hfr I
-      cases h <;> simp_all
-      all_goals (first | grind [upd, Pc.role, Pc.inTask, claimPc, dispatchPc, PopCtx.onEmpty, PopCtx.role, PopCtx.queue, afterLdRunS, afterLdRunB, afterJoinW, afterSubmit, afterSize, slotAvailable] | (trace_state; sorry))
+/-! ### what a step can change besides the program counter of the stepping thread -/
+
+theorem stop_frame {c : Cfg} {s s' : State} {t : Nat} {lb : Lbl} (h : StepCase c s t lb s') :
+    (s'.stopper = s.stopper ∧ s'.stopCalled = s.stopCalled) ∨
+    (s.pc t = .idle ∧ s.stopCalled = false ∧ s'.stopper = some t ∧ s'.stopCalled = true ∧ s'.pc t = .sLd) := by
+  cases h <;> simp_all
+
+theorem running_frame {c : Cfg} {s s' : State} {t : Nat} {lb : Lbl} (h : StepCase c s t lb s') :
+    s'.running = s.running ∨ (s.pc t = .sSt ∧ s'.running = false ∧ s'.pc t = afterStore c) := by
+  cases h <;> simp_all
+
+theorem own_frame {c : Cfg} {s s' : State} {t : Nat} {lb : Lbl} (h : StepCase c s t lb s') :
+    (s'.own = s.own ∧ s'.owner = s.owner) ∨
+    (∃ k, s.pc t = .wInit ∧ slotAvailable s k = true ∧ s'.own = upd s.own t (some k) ∧
+      s'.owner = upd s.owner k (some t) ∧ (s'.pc t).role = .worker ∧ s'.pc t ≠ .wInit) := by
+  cases h
+  case wInit k hpc hav => exact Or.inr ⟨k, hpc, hav, rfl, rfl, by simp [PopCtx.role], by simp⟩
+  all_goals simp_all
+
+theorem scope_frame {c : Cfg} {s s' : State} {t : Nat} {lb : Lbl} (h : StepCase c s t lb s') :
+    s'.scope = s.scope ∨ (∃ v, (s.pc t).inTask = true ∧ (s'.pc t).inTask = true ∧ s'.scope = upd s.scope t v) := by
+  cases h
+  case scopeEnter id hpc => exact Or.inr ⟨_, by simp [hpc, Pc.inTask], by simp [hpc, Pc.inTask], rfl⟩
+  case scopeLeave id hpc hpos => exact Or.inr ⟨_, by simp [hpc, Pc.inTask], by simp [hpc, Pc.inTask], rfl⟩
+  all_goals simp_all
+
+theorem afterJoinW_ne (c : Cfg) (n : Nat) : afterJoinW c n ≠ .sLd ∧ afterJoinW c n ≠ .sSt ∧ afterJoinW c n ≠ .wInit := by
+  unfold afterJoinW; split <;> simp
+theorem afterSubmit_ne (c : Cfg) (b : Bool) (id cid : Nat) :
+    afterSubmit c b id cid ≠ .sLd ∧ afterSubmit c b id cid ≠ .sSt ∧ afterSubmit c b id cid ≠ .wInit := by
+  unfold afterSubmit; split <;> simp
+theorem afterSize_ne (c : Cfg) (p a id cid : Nat) :
+    afterSize c p a id cid ≠ .sLd ∧ afterSize c p a id cid ≠ .sSt ∧ afterSize c p a id cid ≠ .wInit := by
+  unfold afterSize; split <;> simp
+theorem afterLdRunS_ne (v : Bool) : afterLdRunS v ≠ .sLd ∧ afterLdRunS v ≠ .wInit ∧ (afterLdRunS v = .sSt → v = true) := by
+  cases v <;> simp [afterLdRunS]
+
+/-- the entry points `sLd`, `sSt`, `wInit` are entered only where the code enters them -/
+theorem entry_frame {c : Cfg} {s s' : State} {t : Nat} {lb : Lbl} (h : StepCase c s t lb s')
+    (hwf : PcWF c (s.pc t)) :
+    (s'.pc t = .sLd → s.pc t = .idle ∧ s.stopCalled = false) ∧
+    (s'.pc t = .sSt → s.pc t = .sLd ∧ s.running = true) ∧ s'.pc t ≠ .wInit := by
+  have hm := markChain_ne c
+  have hm' := markChain_ne_wInit c
+  have ha := afterStore_ne c
+  have ha' := afterStore_ne_wInit c
+  have h1 := dispatchPc_ne
+  have h2 := claimPc_ne
+  have h4 := onEmpty_ne
+  have h5 := afterJoinW_ne c
+  have h6 := afterSubmit_ne c
+  have h7 := afterSize_ne c
+  have h8 := afterLdRunS_ne
+  have hne : ∀ p k, s.pc t = .gPub p k → k ≠ .sLd ∧ k ≠ .sSt ∧ k ≠ .wInit := by
+    intro p k hp; rw [hp] at hwf; exact cont_ne c none k hwf
+  cases h
+  all_goals (try simp only [exec_proj, upd_same] at *)
+  all_goals first
+    | (simp_all; done)
+    | (simp_all [afterLdRunS, afterLdRunB, afterJoinW, afterSubmit, afterSize]; done)
+    | (rename_i k _ _ _; have := hne _ k (by assumption); simp_all; done)
+    | (rename_i hpc; rcases hpc with hpc | ⟨k, hpc⟩ <;> cases hrun : s.running <;> simp_all [afterLdRunB]; done)
+    | (refine ⟨?_, ?_, ?_⟩ <;> (try split) <;> simp_all [afterLdRunS, afterLdRunB, afterJoinW, afterSubmit, afterSize]; done)
+    | (trace_state; sorry)
 
 end Babylon.Exec
